@@ -1,10 +1,23 @@
 """C06 — Replay shows all tasks in time order with correct nesting and durations.
 Lean: Uft/Model/Merge.lean, Uft/Model/Replay.lean, Uft/Props/C06.lean.
 Tie: correspondence (H3): data directories synthesized with lib/datadir.py (1-6 tasks, threads and
-forked children, forced timestamp ties, open calls at the end) are replayed by the snapshot's
-`uftrace replay` in five modes (default, --no-merge, -f <all time fields>, --tid, --column-view);
-the printed graph is parsed back into canonical lines and compared with the model's lines, and
-monitors evaluate the property itself on the implementation's output."""
+forked children, forced timestamp ties, open calls at the end, and the replay-time fix-ups: calls of
+functions named after every entry of fstack.c's fixup_syms[] -- exec*, setjmp family, longjmp family,
+fork family -- with streams whose depth legitimately jumps, next to look-alike names that must not be
+fix-ups) are replayed by the snapshot's `uftrace replay` in five modes (default, --no-merge,
+-f <all time fields>, --tid, --column-view); the printed graph is parsed back into canonical lines and
+compared with the model's lines (`replayX`, by symbol name), and monitors evaluate the property itself on
+the implementation's output.  Option-form layer: every mode is also run with the same selection written in
+the other syntactic forms the command line accepts (repeated --tid, `;`/`,` lists, --opt=value, -fX,
+permuted lists, `+` field lists, option order); the output must be byte-identical to the canonical form's.
+
+Findings handled by shape (never an alarm on the unchanged tree):
+  C11-LONGJMP-DEPTH (open): a longjmp whose jmp_buf is not the one armed last (one global setjmp_depth).
+  C06-FORK-LATEST: a forked child whose parent has replayed a later fork() at another depth before the
+      child's first record.  Model flag `Fixes.forkLatest`; the tree is classified by which model variant it
+      matches; open entry -> KNOWN-FINDING, fixed entry -> VIOLATION, no entry -> PENDING-FINDING (exit 0).
+  C06-TID-ORPHAN (model flag `Fixes.orphan`): --tid <forked child only>; judged presentation, the --tid
+      monitor compares indentation only for parent-closed selections."""
 import hashlib
 import json
 import os
@@ -15,10 +28,47 @@ from concurrent.futures import ThreadPoolExecutor
 from lib import common as C
 from lib import datadir as D
 
+import random
+
 FIELDS = "time,delta,elapsed,tid,duration,addr"
-FORKLIKE = ("fork", "vfork", "daemon")
-NAMES = ["main", "alpha", "beta", "gamma", "delta", "eps", "zeta", "eta"] + list(FORKLIKE)
+# what the property needs replay to do with a function, by its name (the specification side: written down
+# independently of the model's strncmp/strstr cascade; the model's table and /repo's fixup_syms[] are compared
+# with it on every run)
+FIXCLASS = {
+    "exec": ["execl", "execlp", "execle", "execv", "execve", "execvp", "execvpe"],
+    "setjmp": ["setjmp", "_setjmp", "sigsetjmp", "__sigsetjmp"],
+    "longjmp": ["longjmp", "siglongjmp", "__longjmp_chk"],
+    "fork": ["fork", "vfork", "daemon", "posix.fork"],
+}
+FIXNAMES = [n for k in ("exec", "setjmp", "longjmp", "fork") for n in FIXCLASS[k]]
+FORKLIKE = tuple(FIXCLASS["fork"])
+# names that contain or resemble a fix-up name but are not in fixup_syms[]: ordinary functions
+LOOKALIKE = ["my_longjmp_helper", "setjmp_wrapper", "do_fork", "forkpty", "exec", "execute", "daemonize",
+             "_longjmp", "longjmp_chk", "posix_fork", "vforked", "xsetjmp", "fexecve"]
+PLAIN = ["main", "alpha", "beta", "gamma", "delta", "eps", "zeta", "eta"]
+NAMES = PLAIN + LOOKALIKE + FIXNAMES
 T0 = 2000           # every record is later than the TASK/FORK lines of task.txt
+VARIANTS = [a + b + c for c in "01" for b in "01" for a in "01"]     # model flags: <forkLatest><orphan><execFail>; first = no repair
+FINDINGS = {
+    "C06-FORK-LATEST": {
+        "what": "a forked child whose parent has replayed a later fork()/vfork()/daemon() at another depth before the child's "
+                "first record inherits the depth of that LATEST fork (fstack_account_time copies parent->fork_display_depth): "
+                "all its lines are indented by the difference, contradicting 'a forked child continues at its parent's depth'",
+        "witness": "c06_prefix_fork_latest_witness", "fix": "proposed_fixes/C06-FORK-LATEST.diff",
+        "repro": "main{ a{ fork() } fork() } with the first child's first record later than the parent's second fork() entry "
+                 "(6 of 6 real recordings of such a program): the first child's lines are one level too shallow",
+        "flag": 0, "flagname": "forkLatest",
+    },
+    "C06-EXEC-FAILED": {
+        "what": "an exec*() call that fails and returns: fstack_update() has already reset display_depth and stack_count to 0 at "
+                "the exec entry, so the `}` of exec and every later line of the task are printed at depth 0.. instead of their "
+                "nesting depth, and the exits pair with the wrong stack slots (durations of other calls, the `}` of exec shows a "
+                "start timestamp as duration, e.g. '5.005  h')",
+        "witness": "c06_prefix_exec_failed_witness", "fix": "proposed_fixes/C06-EXEC-FAILED.diff",
+        "repro": "main{ try_run{ execv(\"/nonexistent\") = -1; leaf() } report() }: gcc -pg, uftrace record, uftrace replay",
+        "flag": 2, "flagname": "execFail",
+    },
+}
 
 
 # ---------------------------------------------------------------- formatting as print_time_unit()
@@ -46,17 +96,42 @@ class TaskDesc:
         self.tid, self.kind, self.parent = tid, kind, parent     # kind: 'main' | 'thread' | 'child'
         self.recs = []          # (typ, time, depthfield, addr)
         self.true_depth = []    # nesting depth of each record in the process stack, None if ill-formed
-        self.match = []         # for X: index of its E in recs (or None = inherited frame)
+        self.match = []         # for X: index of its E in recs (or None = inherited frame / second return of setjmp)
         self.wellformed = True
         self.open = []          # addresses of calls open at the end, outermost first (own ENTRYs only)
         self.inherited = 0      # frames inherited at start
         self.fork_time = None
+        self.proper_fork = None
+        self.second_return = []  # indices of the EXIT records that are the second return of a setjmp
+        self.sj = []            # (record index of the setjmp ENTRY, serial)
+        self.lj = []            # (record index of the longjmp ENTRY, serial of the targeted setjmp)
+        self.execs = []         # record indices of exec ENTRYs
+        self.lj_unsafe_from = None   # first record index after a longjmp whose jmp_buf is not the one armed last
+        self.open_frames = 0
+        self.exec_failed = False
+        self.exec_failed_from = None   # index of the EXIT of the first exec*() that returned
+
+
+class Jumps:
+    """which non-local control flow a task's walk may contain"""
+    def __init__(self, sj, lj, ex, p_sj=0.0, p_lj=0.0, p_ex=0.0, p_old=0.0, p_fail=0.0):
+        self.sj, self.lj, self.ex = sj, lj, ex        # candidate addresses per class
+        self.p_sj, self.p_lj, self.p_ex, self.p_old, self.p_fail = p_sj, p_lj, p_ex, p_old, p_fail
 
 
 def walk(rng, td, start_frames, first_exit_addr, t, step, nrec, maxdepth, addrs, fork_addrs, p_fork, jitter, extra_exit,
-         p_entry=0.55):
-    """random ENTRY/EXIT walk; `start_frames` inherited open frames (a forked child)."""
-    stack = [None] * start_frames        # entries: index into td.recs or None (inherited)
+         p_entry=0.55, jumps=None):
+    """random ENTRY/EXIT walk; `start_frames` inherited open frames (a forked child).  With `jumps`: setjmp() leaf
+    calls arm a jump point, longjmp() ENTRYs are followed by the second return of that setjmp at its depth (all frames
+    above are abandoned), exec*() ENTRYs are followed by a fresh depth-0 stack (the new program image)."""
+    uid = [0]
+
+    def fresh(rec_index):
+        uid[0] += 1
+        return (uid[0], rec_index)
+    stack = [fresh(None) for _ in range(start_frames)]      # frames: (uid, index into td.recs or None)
+    live = []            # armed jump points: dict(d, caller, sym, serial)
+    serial = 0
     td.inherited = start_frames
     if start_frames and first_exit_addr is not None:
         stack.pop()
@@ -64,9 +139,53 @@ def walk(rng, td, start_frames, first_exit_addr, t, step, nrec, maxdepth, addrs,
         td.true_depth.append(len(stack))
         td.match.append(None)
     leaf_next = False
+
+    def put(typ, df, a, depth, match):
+        td.recs.append((typ, t, df, a))
+        td.true_depth.append(depth)
+        td.match.append(match)
+
     while len(td.recs) < nrec:
         t += step()
         d = len(stack)
+        live = [j for j in live if d >= j["d"] and stack[j["d"] - 1][0] == j["caller"]]
+        if jumps and not leaf_next and d >= 1:
+            x = rng.random()
+            if x < jumps.p_sj and d <= maxdepth and jumps.sj:
+                # setjmp(): returns at once; remember the frame it was called from
+                a = rng.choice(jumps.sj)
+                serial += 1
+                td.sj.append((len(td.recs), serial))
+                live.append({"d": d, "caller": stack[-1][0], "sym": a, "serial": serial})
+                put("E", d, a, d, None)
+                t += step()
+                put("X", d, a, d, len(td.recs) - 1)
+                continue
+            if jumps.p_sj <= x < jumps.p_sj + jumps.p_lj and live:
+                j = live[-1] if (len(live) == 1 or rng.random() >= jumps.p_old) else rng.choice(live[:-1])
+                a = rng.choice(jumps.lj)
+                td.lj.append((len(td.recs), j["serial"]))
+                put("E", d, a, d, None)
+                t += step()
+                del stack[j["d"]:]
+                td.second_return.append(len(td.recs))
+                put("X", j["d"], j["sym"], j["d"], None)
+                continue
+            if jumps.p_sj + jumps.p_lj <= x < jumps.p_sj + jumps.p_lj + jumps.p_ex and jumps.ex:
+                a = rng.choice(jumps.ex)
+                td.execs.append(len(td.recs))
+                put("E", d, a, d, None)
+                if rng.random() < jumps.p_fail:
+                    # exec failed and returned: the program goes on where it was (shape of C06-EXEC-FAILED)
+                    t += step()
+                    if td.exec_failed_from is None:
+                        td.exec_failed_from = len(td.recs)
+                    put("X", d, a, d, len(td.recs) - 1)
+                    td.exec_failed = True
+                else:
+                    del stack[:]
+                    live = []
+                continue
         if leaf_next:
             kind = "X"
         elif d == 0:
@@ -82,29 +201,44 @@ def walk(rng, td, start_frames, first_exit_addr, t, step, nrec, maxdepth, addrs,
             if jitter and rng.random() < 0.08:
                 df = max(0, d + rng.choice([-1, 1]))
                 td.wellformed = False
-            stack.append(len(td.recs))
-            td.recs.append(("E", t, df, a))
-            td.true_depth.append(d)
-            td.match.append(None)
+            stack.append(fresh(len(td.recs)))
+            put("E", df, a, d, None)
             leaf_next = rng.random() < (0.45 if p_entry < 0.7 else 0.15)
         elif kind == "X":
-            top = stack.pop()
+            top = stack.pop()[1]
             a = td.recs[top][3] if top is not None else rng.choice(addrs)
             df = len(stack)
             if jitter and rng.random() < 0.08:
                 df = max(0, df + rng.choice([-1, 1]))
                 td.wellformed = False
-            td.recs.append(("X", t, df, a))
-            td.true_depth.append(len(stack))
-            td.match.append(top)
+            put("X", df, a, len(stack), top)
         else:   # an EXIT with nothing open (ill-formed stream)
             td.wellformed = False
-            td.recs.append(("X", t, 0, rng.choice(addrs)))
-            td.true_depth.append(None)
-            td.match.append(None)
-    td.open = [td.recs[i][3] for i in stack if i is not None]
+            put("X", 0, rng.choice(addrs), None, None)
+    td.open = [td.recs[i][3] for _, i in stack if i is not None]
     td.open_frames = len(stack)
     return t
+
+
+def analyse_jumps(case):
+    """mark, per task, the first longjmp whose jump point is not the one armed last in replay order (all tasks share
+    fstack.c's single setjmp_depth/setjmp_count): from there on the task is in the shape of C11-LONGJMP-DEPTH"""
+    ts = [case["tasks"][k] for k in case["order"]]
+    ev = []
+    for i, td in enumerate(ts):
+        td.lj_unsafe_from = None
+        for k, ser in td.sj:
+            ev.append((td.recs[k][1], i, k, "sj", ser))
+        for k, ser in td.lj:
+            ev.append((td.recs[k][1], i, k, "lj", ser))
+    ev.sort()
+    last = None
+    for _, i, k, what, ser in ev:
+        if what == "sj":
+            last = (i, ser)
+        elif last != (i, ser) and ts[i].lj_unsafe_from is None:
+            ts[i].lj_unsafe_from = k
+    case["sj_tasks"] = sum(1 for td in ts if td.sj)
 
 
 def gen_case(rng, idx, tier):
@@ -117,10 +251,17 @@ def gen_case(rng, idx, tier):
     big = tier == "thorough" and rng.random() < 0.2
     maxdepth = rng.choice([1, 2, 3, 5, 8] + ([40] if big else []))
     p_entry = 0.8 if rng.random() < 0.25 else 0.55
-    syms = [(0x100 * (k + 1), 0x40, n) for k, n in enumerate(NAMES)]
+    # the symbol table: plain functions, look-alikes and a random subset of the fix-up names (all of them in 1/3 of the cases)
+    fixsel = list(FIXNAMES) if rng.random() < 0.34 else [n for n in FIXNAMES if rng.random() < 0.6]
+    for k in ("fork",):
+        if not any(n in fixsel for n in FIXCLASS[k]):
+            fixsel.append(rng.choice(FIXCLASS[k]))
+    names = PLAIN + [n for n in LOOKALIKE if rng.random() < 0.5] + [n for n in FIXNAMES if n in fixsel]
+    syms = [(0x100 * (k + 1), 0x40, n) for k, n in enumerate(names)]
     addr = {n: D.BASE + rel for rel, _, n in syms}
-    normal = [addr[n] for n in NAMES if n not in FORKLIKE]
-    forks = [addr[n] for n in FORKLIKE]
+    normal = [addr[n] for n in names if n not in FIXNAMES]
+    forks = [addr[n] for n in names if n in FORKLIKE]
+    byclass = {k: [addr[n] for n in FIXCLASS[k] if n in addr] for k in FIXCLASS}
     tids = rng.sample(range(100, 30000), ntask)
 
     if ties:
@@ -136,9 +277,33 @@ def gen_case(rng, idx, tier):
                 return rng.randint(1000, 2000000)
             return rng.randint(10 ** 6, 7 * 10 ** 10)
 
+    # which tasks contain non-local control flow
+    jr = rng.random()
+    can_jump = bool(byclass["setjmp"]) and bool(byclass["longjmp"])
+    if jr < 0.40 or not can_jump:
+        jtasks = set()
+    elif jr < 0.85 or ntask == 1:
+        jtasks = {rng.randrange(ntask)}
+    else:
+        jtasks = set(rng.sample(range(ntask), 2))
+    p_old = rng.choice([0.0, 0.0, 0.0, 0.3])         # jump to an older live jmp_buf: the shape of C11-LONGJMP-DEPTH
+    exec_on = bool(byclass["exec"]) and rng.random() < 0.35
+    p_fail = rng.choice([0.0, 0.2, 0.3])
+
+    def jumps_for(k):
+        sj = k in jtasks
+        ex = exec_on and rng.random() < 0.6
+        if not sj and not ex:
+            return None
+        return Jumps(byclass["setjmp"], byclass["longjmp"], byclass["exec"],
+                     p_sj=rng.choice([0.10, 0.18]) if sj else 0.0, p_lj=rng.choice([0.15, 0.3]) if sj else 0.0,
+                     p_ex=rng.choice([0.05, 0.1]) if ex else 0.0, p_old=p_old, p_fail=p_fail)
+
     tasks = []
     for k in range(ntask):
         nrec = rng.choice(([] if k == 0 else [0]) + [1, 2, 3, 6, 12, 25] + ([120] if big else []))
+        if k in jtasks:
+            nrec = max(nrec, rng.choice([12, 25, 40]))
         if k == 0:
             td = TaskDesc(tids[k], "main")
         elif rng.random() < 0.5:
@@ -146,24 +311,32 @@ def gen_case(rng, idx, tier):
         else:
             td = TaskDesc(tids[k], "child", parent=rng.choice(tasks).tid)
         t = T0 + (rng.randint(0, 3) * (grid if ties else rng.randint(0, 3000)))
+        jm = jumps_for(k)
+        md = max(maxdepth, 3) if k in jtasks else maxdepth
         if td.kind == "child":
             par = next(x for x in tasks if x.tid == td.parent)
             fcalls = [(i, rc) for i, rc in enumerate(par.recs) if rc[0] == "E" and rc[3] in forks and par.true_depth[i] is not None]
             x = rng.random()
             if fcalls and x < 0.75:          # returns from a fork() the parent is seen to call
                 i, rc = rng.choice(fcalls)
-                dt = rng.choice([0, 0, 1]) * (grid if ties else 1) if rng.random() < 0.4 else step()
+                y = rng.random()
+                if y < 0.4:
+                    dt = rng.choice([0, 0, 1]) * (grid if ties else 1)
+                elif y < 0.8:
+                    dt = step()
+                else:                        # a child that is scheduled late: the parent may have forked again by then
+                    dt = step() + step() + step() + step() + step() + step()
                 t = rc[1] + dt
                 start = par.true_depth[i] + 1
-                walk(rng, td, start, rc[3], t, step, max(nrec, 1), max(maxdepth, start), normal, forks, 0.1, jitter, extra_exit, p_entry)
+                walk(rng, td, start, rc[3], t, step, max(nrec, 1), max(md, start), normal, forks, 0.1, jitter, extra_exit, p_entry, jm)
                 td.proper_fork = (i, rc)
             else:                             # a child whose parent's fork() is not in the data
                 start = rng.randint(0, 3)
                 walk(rng, td, start, rng.choice(forks) if (start and rng.random() < 0.8) else None, t, step, nrec,
-                     max(maxdepth, start), normal, forks, 0.1, jitter, extra_exit, p_entry)
+                     max(md, start), normal, forks, 0.1, jitter, extra_exit, p_entry, jm)
                 td.proper_fork = None
         else:
-            walk(rng, td, 0, None, t, step, nrec, maxdepth, normal, forks, 0.25 if k == 0 else 0.08, jitter, extra_exit, p_entry)
+            walk(rng, td, 0, None, t, step, nrec, md, normal, forks, 0.25 if k == 0 else 0.08, jitter, extra_exit, p_entry, jm)
             td.proper_fork = None
         tasks.append(td)
 
@@ -171,12 +344,15 @@ def gen_case(rng, idx, tier):
     if rng.random() < 0.6:
         rng.shuffle(order)               # info.tids order = merge index order
     modes = ["default", "nomerge", "fields", "tid", "column"]
-    sel = sorted(rng.sample(range(ntask), rng.choice([1, 1, 2]) if ntask > 1 else 1))
-    return {
+    sel = sorted(rng.sample(range(ntask), min(ntask, rng.choice([1, 1, 2, 2, 3]))))
+    case = {
         "idx": idx, "syms": syms, "tasks": tasks, "order": order, "ties": ties, "jitter": jitter,
         "extra_exit": extra_exit, "maxdepth": maxdepth, "forks": forks, "sel": sel,
         "col_off": rng.choice([None, None, 3, 5]), "tid_extra": rng.choice([[], ["--no-merge"], []]), "modes": modes,
+        "form_seed": rng.randrange(1 << 30),
     }
+    analyse_jumps(case)
+    return case
 
 
 def task_txt(case):
@@ -205,6 +381,7 @@ def write_dir(case, d):
 
 
 def mode_args(case, mode):
+    """the canonical form of each mode's options"""
     ts = ordered(case)
     if mode == "default":
         return []
@@ -219,6 +396,88 @@ def mode_args(case, mode):
     raise ValueError(mode)
 
 
+# ---------------------------------------------------------------- option forms
+def tid_forms(rng, tids):
+    """ways to write `--tid` for the task set `tids` (uftrace.c: every --tid adds `;arg` to opts->tid;
+    fstack_setup_task splits at ',' and ';')"""
+    tids = [str(t) for t in tids]
+    out = []
+    out.append(["--tid=" + ",".join(tids)])
+    out.append([w for t in tids for w in ("--tid", t)])                 # one option per task
+    out.append(["--tid=%s" % t for t in tids])
+    out.append(["--tid", ";".join(tids)])
+    out.append(["--tid", ", ".join(tids)])                              # strtol skips the blank
+    out.append(["--tid", " " + ",".join(tids)])
+    sh = list(tids)
+    rng.shuffle(sh)
+    out.append(["--tid", ",".join(sh)])
+    out.append([w for t in reversed(tids) for w in ("--tid", t)])
+    out.append(["--tid", ",".join(tids + [rng.choice(tids)])])          # a task named twice
+    if len(tids) >= 2:
+        k = rng.randint(1, len(tids) - 1)
+        out.append(["--tid", ",".join(tids[:k]), "--tid=" + ",".join(tids[k:])])     # mixed
+        out.append(["--tid=" + ";".join(tids[:k]), "--tid", ",".join(tids[k:])])
+    if len(tids) >= 3:
+        out.append(["--tid", tids[0], "--tid", ",".join(tids[1:-1]) + ";" + tids[-1]])
+    return out
+
+
+def field_forms(rng):
+    names = FIELDS.split(",")
+    sh = list(names)
+    rng.shuffle(sh)
+    plus = [n for n in sh if n not in ("duration", "tid")]
+    return [["-f" + FIELDS], ["--output-fields=" + FIELDS], ["--output-fields", FIELDS], ["-f", ",".join(sh)],
+            ["-f", "+" + ",".join(plus)], ["-f", "tid", "-f", FIELDS], ["--output-fields=none", "-f" + ",".join(sh)],
+            ["-f", ",".join(names + [rng.choice(names)])]]
+
+
+def form_args(case, mode, rng):
+    """the same selection / presentation as mode_args(case, mode), written differently"""
+    ts = ordered(case)
+    col = case["col_off"]
+    colforms = [["--column-view"]] if col is None else [
+        ["--column-offset=%d" % col, "--column-view"], ["--column-view", "--column-offset", str(col)],
+        ["--column-offset", "1", "--column-view", "--column-offset=%d" % col]]
+    if mode == "default":
+        return rng.choice([["-f", "duration,tid"], ["-ftid,duration"], ["-f", "+tid"], ["--output-fields=+duration"]])
+    if mode == "nomerge":
+        f = rng.choice(field_forms(rng))
+        return rng.choice([f + ["--no-merge"], ["--no-merge"] + f, ["--no-merge"] + f + ["--no-merge"]])
+    if mode == "fields":
+        return rng.choice(field_forms(rng))
+    if mode == "tid":
+        tf = rng.choice(tid_forms(rng, [ts[i].tid for i in case["sel"]]))
+        f = rng.choice([["-f", FIELDS]] + field_forms(rng))
+        # option units: `--tid=x` is one word, `--tid x` two; the units need not be adjacent
+        units, k = [], 0
+        while k < len(tf):
+            n = 1 if tf[k].startswith("--tid=") else 2
+            units.append(tf[k:k + n])
+            k += n
+        parts = units + [f] + ([case["tid_extra"]] if case["tid_extra"] else [])
+        rng.shuffle(parts)
+        return [w for part in parts for w in part]
+    if mode == "column":
+        return rng.choice(colforms)
+    raise ValueError(mode)
+
+
+def case_forms(case):
+    """[(mode, args)] : the alternative spellings run for this case (deterministic per case)"""
+    rng = random.Random(case.get("form_seed", 0))
+    out = []
+    modes = list(case["modes"])
+    # always a --tid form (2 when several tasks are selected), plus two other modes
+    picks = ["tid"] + (["tid"] if len(case["sel"]) > 1 else []) + rng.sample([m for m in modes if m != "tid"], 2)
+    for m in picks:
+        if m in modes:
+            a = form_args(case, m, rng)
+            if a != mode_args(case, m) and (m, a) not in out:
+                out.append((m, a))
+    return out
+
+
 def parent_index(case, td):
     """get_task_handle(h, t->ppid): only FORK lines give a ppid"""
     if td.kind != "child":
@@ -229,17 +488,18 @@ def parent_index(case, td):
     return None
 
 
-def model_line(case, mode):
+def model_line(case, mode, fx="000"):
     ts = ordered(case)
     merge = "0" if (mode == "nomerge" or (mode == "tid" and "--no-merge" in case["tid_extra"])) else "1"
     col = "0"
     if mode == "column":
         col = str(8 if case["col_off"] is None else case["col_off"])
     sel = ",".join(str(i) for i in case["sel"]) if mode == "tid" else "-"
-    w = ["R", merge, col, ",".join(str(a) for a in case["forks"]), sel]
+    syms = ",".join("%d=%s" % (D.BASE + rel, n) for rel, _, n in case["syms"]) or "-"
+    w = ["R", merge, col, fx, syms, sel]
     for td in ts:
         p = parent_index(case, td)
-        w += ["|", "-" if p is None else str(p)] + ["%s:%d:%d:%d" % (typ, t, dep, a) for typ, t, dep, a in td.recs]
+        w += ["|", ("?" if td.kind == "child" else "-") if p is None else str(p)] + ["%s:%d:%d:%d" % (typ, t, dep, a) for typ, t, dep, a in td.recs]
     return " ".join(w)
 
 
@@ -320,7 +580,11 @@ def parse_output(text, with_fields, name2addr):
             continue
         m = re.match(r"^\[(\d+)\] (\S+)$", row)
         if m and cur is not None:
-            cur[1].append((int(m.group(1)), name2addr.get(m.group(2), m.group(2))))
+            nm_ = m.group(2)
+            mh = re.match(r"^<([0-9a-f]+)>$", nm_)
+            # `<addr>`: print_remaining_stack looks the session up with the slot's total_time, which is a duration for a
+            # closed call that a stale setjmp_count has put back on the stack; symbol resolution is C10's subject
+            cur[1].append((int(m.group(1)), int(mh.group(1), 16) if mh else name2addr.get(nm_, nm_)))
             continue
         problems.append("unparsed remaining-stack line: %r" % row)
     return lines, rem, problems
@@ -374,8 +638,17 @@ def unfold_impl(lines):
     return out
 
 
+def shape_tag(td, k):
+    """the finding whose shape record `k` of the task is in (the earlier of the two triggers wins), or None"""
+    c = [(td.lj_unsafe_from + 1, "C11-LONGJMP-DEPTH")] if td.lj_unsafe_from is not None else []
+    c += [(td.exec_failed_from, "C06-EXEC-FAILED")] if td.exec_failed_from is not None else []
+    c = [x for x in c if k >= x[0]]
+    return min(c)[1] if c else None
+
+
 def monitors(case, res):
-    """res: mode -> (lines, rem).  Returns list of (name, description)."""
+    """res: mode -> (lines, rem).  Returns list of (name, description, tag): tag None = a violation of the property,
+    otherwise the id of the finding whose shape the failing task has."""
     bad = []
     ts = ordered(case)
     tids = [td.tid for td in ts]
@@ -391,44 +664,47 @@ def monitors(case, res):
         exp = [("e" if typ == "E" else "x", a, t) for typ, t, dep, a in td.recs]
         got = [(e["kind"], e["fn"], e["time"]) for e in mine]
         if got != exp:
-            bad.append(("per-task-order", "task %d: --no-merge shows %d lines that are not its %d records in order" % (td.tid, len(got), len(exp))))
+            bad.append(("per-task-order", "task %d: --no-merge shows %d lines that are not its %d records in order" % (td.tid, len(got), len(exp)), None))
             break
     # (2) global time order, ties: lowest task index first
     keys = [(e["time"], idx_of.get(e["tid"], -1)) for e in L]
     for a, b in zip(keys, keys[1:]):
         if b < a:
-            bad.append(("merge-order", "line (time=%d, task#%d) is printed before (time=%d, task#%d)" % (a[0], a[1], b[0], b[1])))
+            bad.append(("merge-order", "line (time=%d, task#%d) is printed before (time=%d, task#%d)" % (a[0], a[1], b[0], b[1]), None))
             break
-    # (3) indentation = nesting depth (the record's depth in its process stack) for well-formed tasks
+    # (3) indentation = nesting depth (the record's depth in its process stack: what the depth field of a coherent
+    #     stream says, also after a longjmp / exec) for well-formed tasks
     first_seen = {}
     for pos, e in enumerate(L):
         first_seen.setdefault(e["tid"], pos)
     for td in ts:
         if not td.wellformed:
             continue
+        tag0 = None
         if td.kind == "child":
             if not td.proper_fork:
                 continue
             par = by_tid[td.parent]
-            if not par.wellformed or par.kind == "child":
+            if not par.wellformed or par.kind == "child" or par.lj_unsafe_from is not None or par.exec_failed_from is not None:
                 continue
             # the parent's fork() line must be printed before the child's first line
             fpos = next((p for p, e in enumerate(L) if e["tid"] == par.tid and e["kind"] == "e" and e["time"] == td.proper_fork[1][1]
                          and e["fn"] == td.proper_fork[1][3]), None)
-            anyfork = next((p for p, e in enumerate(L) if e["tid"] == par.tid and e["kind"] == "e" and e["fn"] in case["forks"]), None)
             if fpos is None or td.tid not in first_seen or not (fpos < first_seen[td.tid]):
                 continue
-            # the inherited depth is that of the parent's most recent fork() before the child's first line
+            # replay hands down the depth of the parent's most recent fork() before the child's first line: if that is
+            # another fork() than the one the child returns from, the case has the shape of C06-FORK-LATEST
             last = [p for p, e in enumerate(L) if p < first_seen[td.tid] and e["tid"] == par.tid and e["kind"] == "e" and e["fn"] in case["forks"]]
             if last[-1] != fpos:
-                continue
+                tag0 = "C06-FORK-LATEST"
         mine = [e for e in L if e["tid"] == td.tid]
-        for e, d in zip(mine, td.true_depth):
+        for k, (e, d) in enumerate(zip(mine, td.true_depth)):
             if d is not None and e["indent2"] != 2 * d:
+                tag = shape_tag(td, k) or tag0
                 bad.append(("indent-is-depth", "task %d: %s of %s at time %d has nesting depth %d but is printed at indent %d" % (
-                    td.tid, e["kind"], e["fn"], e["time"], d, e["indent2"] // 2)))
+                    td.tid, e["kind"], e["fn"], e["time"], d, e["indent2"] // 2), tag))
                 break
-    # (4) duration = exit - entry
+    # (4) duration = exit - entry of the same call (the second return of a setjmp has no entry of its own)
     for td in ts:
         mine = [e for e in L if e["tid"] == td.tid]
         if len(mine) != len(td.recs):
@@ -437,11 +713,12 @@ def monitors(case, res):
             if rc[0] == "X" and td.match[k] is not None and td.wellformed:
                 want = fmt_unit(rc[1] - td.recs[td.match[k]][1]).strip()
                 if e["dur"] != want:
+                    tag = shape_tag(td, k)
                     bad.append(("duration-exact", "task %d: call %s entered %d left %d is shown with duration %r, expected %r" % (
-                        td.tid, rc[3], td.recs[td.match[k]][1], rc[1], e["dur"], want)))
+                        td.tid, rc[3], td.recs[td.match[k]][1], rc[1], e["dur"], want), tag))
                     break
             if rc[0] == "E" and e["dur"] != "":
-                bad.append(("duration-exact", "an ENTRY line shows a duration"))
+                bad.append(("duration-exact", "an ENTRY line shows a duration", None))
                 break
     # (4b) the time fields: delta = since the task's previous line, elapsed = since the first record
     for mode in ("nomerge", "fields"):
@@ -457,7 +734,7 @@ def monitors(case, res):
             prev[e["tid"]] = e["time"]
             if e["delta"] != want_d or e["elapsed"] != want_e:
                 bad.append(("time-fields", "%s: line of task %d at time %d shows delta %r elapsed %r, expected %r %r" % (
-                    mode, e["tid"], e["time"], e["delta"], e["elapsed"], want_d, want_e)))
+                    mode, e["tid"], e["time"], e["delta"], e["elapsed"], want_d, want_e), None))
                 break
     # (5) folding is presentation only
     def strip(e, keys):
@@ -467,36 +744,46 @@ def monitors(case, res):
         u = unfold_impl(fl[0])
         k5 = ("kind", "tid", "indent2", "fn", "dur", "addr")
         if [strip(e, k5) for e in u] != [strip(e, k5) for e in L]:
-            bad.append(("folding-is-presentation", "unfolding the default output does not give the --no-merge output"))
+            bad.append(("folding-is-presentation", "unfolding the default output does not give the --no-merge output", None))
         elif [e["time"] for e in u if e["time"] is not None] != [e["time"] for e, f in zip(L, u) if f["time"] is not None]:
-            bad.append(("folding-is-presentation", "timestamps differ between folded and --no-merge output"))
+            bad.append(("folding-is-presentation", "timestamps differ between folded and --no-merge output", None))
         if fl[1] != nm[1]:
-            bad.append(("folding-is-presentation", "remaining-functions listing differs between default and --no-merge"))
+            bad.append(("folding-is-presentation", "remaining-functions listing differs between default and --no-merge", None))
         # leaves are folded only when the EXIT is the very next line
         df = res.get("default")
         if df is not None:
             k4 = ("kind", "tid", "indent2", "fn", "dur")
             if [strip(e, k4) for e in df[0]] != [strip(e, k4) for e in fl[0]] or df[1] != fl[1]:
-                bad.append(("fields-are-projection", "-f %s changes the calls shown" % FIELDS))
+                bad.append(("fields-are-projection", "-f %s changes the calls shown" % FIELDS, None))
     # (6) --tid = projection
     td_ = res.get("tid")
     if td_ is not None:
         selt = [tids[i] for i in case["sel"]]
-        u = unfold_impl(td_[0])
-        want = [e for e in L if e["tid"] in selt]
+        # setjmp_depth/setjmp_count are shared by all tasks: when several tasks arm jump points, leaving a task out
+        # changes which one was armed last (C11-LONGJMP-DEPTH): tasks that longjmp are then left out of the comparison
+        skip = {td.tid for td in ts if td.lj} if case.get("sj_tasks", 0) >= 2 else set()
+        grew = bool(skip)
+        while grew:       # ... and the forked children that inherit their depth from such a task
+            grew = False
+            for td in ts:
+                if td.kind == "child" and td.parent in skip and td.tid not in skip:
+                    skip.add(td.tid)
+                    grew = True
+        u = [e for e in unfold_impl(td_[0]) if e["tid"] not in skip]
+        want = [e for e in L if e["tid"] in selt and e["tid"] not in skip]
         closed = all(parent_index(case, ts[i]) is None or parent_index(case, ts[i]) in case["sel"] for i in case["sel"])
         k6 = ("kind", "tid", "fn", "dur", "addr") + (("indent2",) if closed else ())
         if [strip(e, k6) for e in u] != [strip(e, k6) for e in want]:
-            bad.append(("tid-is-projection", "--tid %s output is not the full output restricted to these tasks" % selt))
+            bad.append(("tid-is-projection", "--tid %s output is not the full output restricted to these tasks" % selt, None))
         else:
             tw = [e["time"] for e, f in zip(want, u) if f["time"] is not None]
             if [e["time"] for e in u if e["time"] is not None] != tw:
-                bad.append(("tid-is-projection", "--tid changes timestamps"))
+                bad.append(("tid-is-projection", "--tid changes timestamps", None))
             ew = [e["elapsed"] for e, f in zip(want, u) if f["time"] is not None and f["kind"] != "x"]
             if [e["elapsed"] for e in u if e["time"] is not None and e["kind"] != "x"] != ew and "--no-merge" in case["tid_extra"]:
-                bad.append(("tid-is-projection", "--tid changes the elapsed field"))
-        if td_[1] != [x for x in nm[1] if x[0] in selt]:
-            bad.append(("tid-is-projection", "--tid changes the remaining-functions listing of the selected tasks"))
+                bad.append(("tid-is-projection", "--tid changes the elapsed field", None))
+        if [x for x in td_[1] if x[0] not in skip] != [x for x in nm[1] if x[0] in selt and x[0] not in skip]:
+            bad.append(("tid-is-projection", "--tid changes the remaining-functions listing of the selected tasks", None))
     # (7) --column-view shifts each task by a constant column
     cv = res.get("column")
     df = res.get("default")
@@ -509,7 +796,7 @@ def monitors(case, res):
             if (a["kind"], a["tid"], a["fn"], a["dur"]) != (b["kind"], b["tid"], b["fn"], b["dur"]) or a["indent2"] != b["indent2"] + 2 * off * c:
                 ok = False
         if not ok or cv[1] != df[1]:
-            bad.append(("column-view-is-presentation", "--column-view changes more than each task's column"))
+            bad.append(("column-view-is-presentation", "--column-view changes more than each task's column", None))
     # (8) calls still open at the end are listed, innermost first
     for td in ts:
         if not td.wellformed:
@@ -517,7 +804,7 @@ def monitors(case, res):
         lst = dict(nm[1]).get(td.tid)
         want = [(k, a) for k, a in reversed(list(enumerate(td.open)))]
         if list(lst or []) != want:
-            bad.append(("open-calls-listed", "task %d: open calls %s, listed %s" % (td.tid, want, lst)))
+            bad.append(("open-calls-listed", "task %d: open calls %s, listed %s" % (td.tid, want, lst), shape_tag(td, len(td.recs))))
             break
     return bad
 
@@ -529,11 +816,14 @@ def case_json(case):
             "tid": td.tid, "kind": td.kind, "parent": td.parent,
             "records": ["%s:%d:%d:%s" % (typ, t, dep, hex(a)) for typ, t, dep, a in td.recs],
             "meta": {"true_depth": td.true_depth, "match": td.match, "wellformed": td.wellformed, "open": td.open,
-                     "inherited": td.inherited, "proper_fork": (list(td.proper_fork[1]) if td.proper_fork else None)},
+                     "inherited": td.inherited, "proper_fork": (list(td.proper_fork[1]) if td.proper_fork else None),
+                     "second_return": td.second_return, "sj": [list(x) for x in td.sj], "lj": [list(x) for x in td.lj],
+                     "execs": td.execs, "exec_failed_from": td.exec_failed_from},
         } for td in case["tasks"]],
         "info_tids_order": case["order"], "task_txt": task_txt(case).decode(),
         "symbols": [[r, sz, n] for r, sz, n in case["syms"]], "forks": case["forks"],
         "sel": case["sel"], "col_off": case["col_off"], "tid_extra": case["tid_extra"], "modes": case["modes"],
+        "form_seed": case.get("form_seed", 0),
         "flags": {k: case[k] for k in ("ties", "jitter", "extra_exit", "maxdepth")},
     }
 
@@ -548,43 +838,74 @@ def case_from_json(j, idx=0):
         m = t["meta"]
         td.true_depth, td.match, td.wellformed, td.open, td.inherited = m["true_depth"], m["match"], m["wellformed"], m["open"], m["inherited"]
         td.proper_fork = (None, tuple(m["proper_fork"])) if m["proper_fork"] else None
+        td.second_return = m.get("second_return", [])
+        td.sj = [tuple(x) for x in m.get("sj", [])]
+        td.lj = [tuple(x) for x in m.get("lj", [])]
+        td.execs = m.get("execs", [])
+        td.exec_failed_from = m.get("exec_failed_from")
+        td.exec_failed = td.exec_failed_from is not None
         tasks.append(td)
     case = {"idx": idx, "syms": [tuple(x) for x in j["symbols"]], "tasks": tasks, "order": j["info_tids_order"],
-            "forks": j["forks"], "sel": j["sel"], "col_off": j["col_off"], "tid_extra": j["tid_extra"], "modes": j["modes"]}
+            "forks": j["forks"], "sel": j["sel"], "col_off": j["col_off"], "tid_extra": j["tid_extra"], "modes": j["modes"],
+            "form_seed": j.get("form_seed", 0)}
     case.update(j["flags"])
+    analyse_jumps(case)
     return case
 
 
 def run_case_modes(uft, case, root):
+    """-> ({mode: (rc, out, err)}, [(mode, args, (rc, out, err))] for the alternative option forms)"""
     d = os.path.join(root, "c%d" % case["idx"])
     write_dir(case, d)
     out = {}
     for mode in case["modes"]:
         out[mode] = D.run_uftrace(uft, "replay", d, mode_args(case, mode), timeout=30)
+    forms = [(mode, args, D.run_uftrace(uft, "replay", d, args, timeout=30)) for mode, args in case_forms(case)]
     shutil.rmtree(d, ignore_errors=True)
-    return out
+    return out, forms
+
+
+def has_child(case):
+    return any(td.kind == "child" for td in case["tasks"])
+
+
+def rep_variant(case, fx):
+    """the variant whose model output equals that of `fx` for this case: the fork repairs only matter for forked
+    tasks, the exec repair only where an exec*() is called"""
+    ab = fx[:2] if has_child(case) else "00"
+    c = fx[2] if any(td.execs for td in case["tasks"]) else "0"
+    return ab + c
 
 
 def evaluate(ctx, cases, uft, root):
+    """-> raw results, model output per (idx, mode, variant), model input per (idx, mode)"""
     with ThreadPoolExecutor(max_workers=12) as ex:
         raw = list(ex.map(lambda c: run_case_modes(uft, c, root), cases))
     mlines, keys = [], []
     for case in cases:
         for mode in case["modes"]:
-            mlines.append(model_line(case, mode))
-            keys.append((case["idx"], mode))
+            for fx in sorted({rep_variant(case, v) for v in VARIANTS}):
+                mlines.append(model_line(case, mode, fx))
+                keys.append((case["idx"], mode, fx))
     mout = C.run_model("C06", mlines)
     if len(mout) != len(mlines):
         raise RuntimeError("uvmodel C06 returned %d lines for %d queries" % (len(mout), len(mlines)))
-    return raw, dict(zip(keys, mout)), dict(zip(keys, mlines))
+    mres = dict(zip(keys, mout))
+    for case in cases:
+        for mode in case["modes"]:
+            for fx in VARIANTS:
+                mres[(case["idx"], mode, fx)] = mres[(case["idx"], mode, rep_variant(case, fx))]
+    return raw, mres, {(k[0], k[1]): l for k, l in zip(keys, mlines) if k[2] == VARIANTS[0]}
 
 
 def assess(case, rr, mres):
-    """-> (res, mismatches, bad): parsed output per mode, model/impl differences, monitor failures"""
+    """-> (res, {variant: mismatches}, bad): parsed output per mode, model/impl differences per model variant,
+    monitor failures (name, description, tag)"""
+    rr, forms = rr
     ts = ordered(case)
     tids = [td.tid for td in ts]
     name2addr = {n: D.BASE + r for r, _, n in case["syms"]}
-    res, mism, crashed = {}, [], []
+    res, mism, crashed = {}, {fx: [] for fx in VARIANTS}, []
     for mode in case["modes"]:
         rc, out, err = rr[mode]
         wf = mode not in ("default", "column")
@@ -596,22 +917,83 @@ def assess(case, rr, mres):
             crashed.append((mode, "parse", probs[:3]))
         res[mode] = (lines, rem)
         ci = canon_impl(lines, rem, wf)
-        cm = canon_model(mres[(case["idx"], mode)], tids, wf)
-        if ci != cm:
-            k = next((i for i, (a, b) in enumerate(zip(ci[0], cm[0])) if a != b), min(len(ci[0]), len(cm[0])))
-            mism.append({"mode": mode, "args": mode_args(case, mode), "first_difference_at_line": k,
-                         "impl": [list(x) for x in ci[0][k:k + 3]], "model": [list(x) for x in cm[0][k:k + 3]],
-                         "impl_remaining": ci[1], "model_remaining": cm[1]})
+        for fx in VARIANTS:
+            cm = canon_model(mres[(case["idx"], mode, fx)], tids, wf)
+            if ci != cm:
+                k = next((i for i, (a, b) in enumerate(zip(ci[0], cm[0])) if a != b), min(len(ci[0]), len(cm[0])))
+                mism[fx].append({"mode": mode, "args": mode_args(case, mode), "first_difference_at_line": k,
+                                 "impl": [list(x) for x in ci[0][k:k + 3]], "model": [list(x) for x in cm[0][k:k + 3]],
+                                 "impl_remaining": ci[1], "model_remaining": cm[1], "model_variant": fx})
     if crashed:
-        bad = [("output", "uftrace replay failed or printed something unparsable: %r" % (crashed[:2],))]
+        bad = [("output", "uftrace replay failed or printed something unparsable: %r" % (crashed[:2],), None)]
     else:
         bad = monitors(case, res)
+    # option forms: the same selection, written differently, must give the same output
+    for mode, args, (rc, out, err) in forms:
+        if (rc, out, err) != tuple(rr[mode]):
+            canon = mode_args(case, mode)
+            a, b = rr[mode][1].split("\n"), out.split("\n")
+            k = next((i for i, (x, y) in enumerate(zip(a, b)) if x != y), min(len(a), len(b)))
+            bad.append(("option-forms", "`uftrace replay %s` (rc %s, %d lines) differs from the same selection written `%s` (rc %s, %d lines) "
+                        "at output line %d: %r vs %r; stderr %r" % (" ".join(args), rc, len(b), " ".join(canon), rr[mode][0], len(a), k,
+                                                                     (b[k:k + 1] or [None])[0], (a[k:k + 1] or [None])[0], err[-200:]), None))
     return res, mism, bad
 
 
 def closed_sel(case):
     ts = ordered(case)
     return all(parent_index(case, ts[i]) is None or parent_index(case, ts[i]) in case["sel"] for i in case["sel"])
+
+
+def finding_entry(fid):
+    """the entry of known_findings.json with this id (any property, any status), or None"""
+    try:
+        kf = json.load(open(os.path.join(C.VERIF, "known_findings.json")))
+    except (OSError, ValueError):
+        return None
+    for f in kf.get("findings", []):
+        if f.get("id") == fid:
+            return f
+    return None
+
+
+def source_fixup_syms(src):
+    """fixup_syms[] of the snapshot's utils/fstack.c"""
+    try:
+        text = open(os.path.join(src, "utils", "fstack.c")).read()
+    except OSError:
+        return None
+    m = re.search(r"fixup_syms\[\]\s*=\s*\{(.*?)\};", text, re.S)
+    return re.findall(r'"([^"]*)"', m.group(1)) if m else None
+
+
+def table_check(ctx):
+    """the model's table and classification against the specification side (FIXCLASS) and /repo's table"""
+    names = FIXNAMES + LOOKALIKE + PLAIN
+    tab, cls = C.run_model("C06", ["T", "K " + " ".join(names)])
+    want = {n: k for k, l in FIXCLASS.items() for n in l}
+    probs = []
+    got = dict(zip(names, cls.split()))
+    for n in names:
+        if got.get(n) != want.get(n, "none"):
+            probs.append("model classifies %s as %s, the property needs %s" % (n, got.get(n), want.get(n, "none")))
+    src = source_fixup_syms(ctx.src)
+    if src is None:
+        probs.append("fixup_syms[] not found in utils/fstack.c")
+    elif sorted(src) != sorted(tab.split()):
+        probs.append("fixup_syms[] of utils/fstack.c %s differs from the model's table %s" % (sorted(set(src) ^ set(tab.split())), ""))
+    return probs, src
+
+
+def load_corpus():
+    d = os.path.join(C.VERIF, "corpus", "C06")
+    out = []
+    if os.path.isdir(d):
+        for n in sorted(os.listdir(d)):
+            if n.endswith(".json"):
+                j = json.load(open(os.path.join(d, n)))
+                out.append((n, j))
+    return out
 
 
 def run(ctx):
@@ -623,25 +1005,44 @@ def run(ctx):
         C.violation(ctx, "build", {"kind": "harness-build-failed", "log": log[-3000:]}, True)
         return C.finish(ctx)
     rng = ctx.rng
-    ncase = 400 if ctx.tier == "quick" else 40000
+    ncase = 400 if ctx.tier == "quick" else 25000
     root = os.path.join(ctx.scratch, "dirs")
     os.makedirs(root, exist_ok=True)
 
-    evaluations = disagreements = monitor_fail = replays = 0
+    tprobs, src_tab = table_check(ctx)
+
+    evaluations = monitor_fail = 0
     distinct = set()
     dist = {"tasks": {}, "with_ties": 0, "cross_task_ties": 0, "with_fork_child": 0, "proper_fork_child": 0, "with_threads": 0,
             "with_open_calls": 0, "depth_field_jitter": 0, "unbalanced_exit": 0, "max_depth": 0, "records": 0,
             "folded_leaves": 0, "unfolded_leaf_because_other_task_between": 0, "tid_selection_not_parent_closed": 0,
-            "child_first_index_lower_than_parent": 0}
+            "child_first_index_lower_than_parent": 0,
+            "dirs_with_setjmp": 0, "dirs_with_longjmp": 0, "longjmps": 0, "longjmps_not_last_armed_tasks": 0, "dirs_setjmp_in_2_tasks": 0,
+            "dirs_with_exec": 0, "execs": 0, "failed_execs": 0, "fork_latest_shape_children": 0,
+            "fixup_names_called": {}, "lookalike_names_called": {}, "option_form_runs": 0, "tid_forms_with_repeated_option": 0,
+            "tid_selected_tasks": {}}
     samples = []
+    var_dis = {fx: 0 for fx in VARIANTS}          # directories with a model/implementation difference, per model variant
+    var_cases = {fx: [] for fx in VARIANTS}       # (case, mismatches) kept for reporting
+    untagged = []                                 # (case, bad, mlines)
+    tagged = {}                                   # finding id -> [(case, failures)]
     done = 0
+    first = True
     while done < ncase:
-        chunk = [gen_case(rng, done + i, ctx.tier) for i in range(min(1000, ncase - done))]
-        done += len(chunk)
+        chunk = []
+        if first:
+            for n, j in load_corpus():
+                c = case_from_json(j, idx=len(chunk))
+                c["corpus"] = n
+                chunk.append(c)
+            first = False
+        base = len(chunk)
+        chunk += [gen_case(rng, base + done + i, ctx.tier) for i in range(min(1000, ncase - done))]
+        done += len(chunk) - base
         raw, mres, mlines = evaluate(ctx, chunk, uft, root)
         for case, rr in zip(chunk, raw):
             ts = ordered(case)
-            evaluations += len(case["modes"])
+            evaluations += len(case["modes"]) + len(rr[1])
             res, mism, bad = assess(case, rr, mres)
             # statistics
             if sum(len(td.recs) for td in ts) >= 2:
@@ -664,54 +1065,163 @@ def run(ctx):
             dist["unbalanced_exit"] += case["extra_exit"]
             dist["max_depth"] = max([dist["max_depth"]] + [d for td in ts for d in td.true_depth if d is not None])
             dist["records"] += sum(len(td.recs) for td in ts)
+            dist["dirs_with_setjmp"] += any(td.sj for td in ts)
+            dist["dirs_with_longjmp"] += any(td.lj for td in ts)
+            dist["longjmps"] += sum(len(td.lj) for td in ts)
+            dist["longjmps_not_last_armed_tasks"] += sum(1 for td in ts if td.lj_unsafe_from is not None)
+            dist["dirs_setjmp_in_2_tasks"] += case.get("sj_tasks", 0) >= 2
+            dist["dirs_with_exec"] += any(td.execs for td in ts)
+            dist["execs"] += sum(len(td.execs) for td in ts)
+            dist["failed_execs"] += sum(1 for td in ts if td.exec_failed)
+            a2n = {D.BASE + r: n for r, _, n in case["syms"]}
+            for td in ts:
+                for typ, _, _, a in td.recs:
+                    n = a2n.get(a)
+                    if typ == "E" and n in FIXNAMES:
+                        dist["fixup_names_called"][n] = dist["fixup_names_called"].get(n, 0) + 1
+                    elif typ == "E" and n in LOOKALIKE:
+                        dist["lookalike_names_called"][n] = dist["lookalike_names_called"].get(n, 0) + 1
+            dist["option_form_runs"] += len(rr[1])
+            dist["tid_forms_with_repeated_option"] += sum(1 for m, a, _ in rr[1] if m == "tid" and sum(w.startswith("--tid") for w in a) > 1)
+            dist["tid_selected_tasks"][len(case["sel"])] = dist["tid_selected_tasks"].get(len(case["sel"]), 0) + 1
+            dist["fork_latest_shape_children"] += sum(1 for b in bad if b[2] == "C06-FORK-LATEST")
+            dist["exec_failed_shape_tasks"] = dist.get("exec_failed_shape_tasks", 0) + sum(1 for td in ts if td.exec_failed_from is not None)
             if "fields" in res and "nomerge" in res:
                 nl = sum(1 for e in res["fields"][0] if e["kind"] == "l")
                 dist["folded_leaves"] += nl
-                L = res["nomerge"][0]
                 adj = 0
                 for td in ts:
                     adj += sum(1 for ra, rb in zip(td.recs, td.recs[1:]) if ra[0] == "E" and rb[0] == "X" and ra[2] == rb[2])
                 dist["unfolded_leaf_because_other_task_between"] += adj - nl
             dist["tid_selection_not_parent_closed"] += not closed_sel(case)
-            if len(samples) < 3 and case["idx"] % 41 == 7:
-                samples.append({"model_input": mlines[(case["idx"], "default")][:400], "impl_default_output": rr["default"][1][:600]})
-            disagreements += bool(mism)
-            monitor_fail += bool(bad)
-            if (bad or mism) and replays < 3:
-                replays += 1
-                C.violation(ctx, "case%d" % case["idx"], {
-                    "kind": "property-violated-on-implementation" if bad else "model-code-disagreement",
-                    "what": [list(b) for b in bad], "case": case_json(case),
-                    "model_vs_impl": mism[:3],
-                    "model_inputs": {m: mlines[(case["idx"], m)] for m in case["modes"]},
-                    "theorem": "c06_* (Props/C06.lean) / correspondence Merge+Replay",
-                }, no_failing_input=not bad)
+            if len(samples) < 3 and case["idx"] % 41 == 7 and "corpus" not in case:
+                samples.append({"model_input": mlines[(case["idx"], "default")][:400], "impl_default_output": rr[0]["default"][1][:600]})
+            for fx in VARIANTS:
+                if mism[fx]:
+                    var_dis[fx] += 1
+                    if len(var_cases[fx]) < 3:
+                        var_cases[fx].append((case, mism[fx], {m: mlines[(case["idx"], m)] for m in case["modes"]}))
+            plain = [b for b in bad if b[2] is None]
+            if plain:
+                monitor_fail += 1
+                if len(untagged) < 3:
+                    untagged.append((case, plain, {m: mlines[(case["idx"], m)] for m in case["modes"]}))
+            for b in bad:
+                if b[2] is not None:
+                    tagged.setdefault(b[2], []).append((case, b))
+
+    # ---- which model variant is this tree?  (the first with the fewest differences; 00 = the code without either repair)
+    best = min(VARIANTS, key=lambda fx: (var_dis[fx], VARIANTS.index(fx)))
+    disagreements = var_dis[best]
+    nrep = 0
+    for case, plain, ml in untagged:
+        nrep += 1
+        C.violation(ctx, "case%s" % ((case.get("corpus") or "").replace(".json", "") or case["idx"]), {
+            "kind": "property-violated-on-implementation", "what": [list(b[:2]) for b in plain], "case": case_json(case),
+            "model_inputs": ml, "theorem": "c06_* (Props/C06.lean)"})
+    for case, mm, ml in var_cases[best]:
+        if nrep >= 3:
+            break
+        if any(case is c for c, _, _ in untagged):
+            continue
+        nrep += 1
+        C.violation(ctx, "case%s" % ((case.get("corpus") or "").replace(".json", "") or case["idx"]), {
+            "kind": "model-code-disagreement", "what": [], "case": case_json(case), "model_vs_impl": mm[:3], "model_inputs": ml,
+            "model_variant": best, "theorem": "c06_* (Props/C06.lean) / correspondence Merge+Replay"}, no_failing_input=True)
+    if tprobs:
+        C.violation(ctx, "fixup-table", {"kind": "model-code-disagreement", "what": tprobs,
+                                         "theorem": "c06_fixup_classification_total / fixupSyms vs utils/fstack.c fixup_syms[]",
+                                         "searched": "%d (directory, options) runs; monitor failures %d" % (evaluations, monitor_fail)},
+                    no_failing_input=(monitor_fail == 0))
+    # ---- findings recognised by their shape
+    lj = tagged.get("C11-LONGJMP-DEPTH", [])
+    if lj:
+        ent = finding_entry("C11-LONGJMP-DEPTH")
+        what = "C11-LONGJMP-DEPTH replay keeps one global setjmp_depth/setjmp_count: %d generated task(s) longjmp to a jump point " \
+               "that was not armed last and are then shown at the wrong depth (e.g. %s)" % (len(lj), lj[0][1][1][:160])
+        if ent is not None and ent.get("status") == "open":
+            C.known(ctx, ent, what)
+        else:
+            case, b = lj[0]
+            C.violation(ctx, "longjmp-%s" % case["idx"], {"kind": "property-violated-on-implementation", "what": [list(b[:2])],
+                                                           "case": case_json(case), "note": "shape of C11-LONGJMP-DEPTH, which is not listed as open"})
+    for fid in sorted(FINDINGS):
+        F = FINDINGS[fid]
+        fl = tagged.get(fid, [])
+        k = F["flag"]
+        pre_fix = best[k] == "0"
+        # the tree behaves like the model without this repair, and the variants with it differ on some directory
+        differs = any(var_dis[v] > var_dis[best] for v in VARIANTS if v[k] == "1" and v[:k] + v[k + 1:] == best[:k] + best[k + 1:])
+        if not fl and not (pre_fix and differs):
+            continue
+        ent = finding_entry(fid)
+        what = "%s %s (implementation matches the pre-fix model variant `%s := false`, witness %s; %d generated " \
+               "task(s) of this shape are shown wrongly; repair: %s)" % (fid, F["what"], F["flagname"], F["witness"], len(fl), F["fix"])
+        if not pre_fix and fl:
+            # the tree matches the repaired model and still shows such a task wrongly
+            case, b = fl[0]
+            C.violation(ctx, "%s-%s" % (fid, case["idx"]), {"kind": "property-violated-on-implementation", "what": [list(b[:2])],
+                                                             "case": case_json(case)})
+        elif not pre_fix:
+            continue
+        elif ent is not None and ent.get("status") == "open":
+            C.known(ctx, ent, what)
+        elif ent is not None:
+            if fl:
+                case, b = fl[0]
+                C.violation(ctx, "regression-%s-%s" % (fid, case["idx"]), {
+                    "kind": "property-violated-on-implementation", "what": [list(b[:2])], "case": case_json(case),
+                    "regression_of": ent.get("commit")})
+            else:
+                C.violation(ctx, "regression-%s" % fid, {"kind": "model-code-disagreement", "what": what,
+                                                         "model_variant_disagreements": var_dis}, True)
+        else:
+            msg = "PENDING-FINDING: property=C06 %s [not yet recorded in known_findings.json]" % what
+            ctx.notes.append(msg)
+            ctx.coverage.setdefault("pending_findings", []).append(
+                {"id": fid, "witness": F["witness"], "proposed_fix": F["fix"], "reproduction": F["repro"],
+                 "cases": len(fl), "example_what": fl[0][1][1] if fl else None,
+                 "example_case": case_json(fl[0][0]) if fl else None})
+            ctx.known_printed.append(msg)
     if proof_broken:
         C.violation(ctx, "proof", {"kind": "proof-obligation-broken", "problems": problems,
-                                   "searched": "%d (directory, mode) runs; monitor failures %d" % (evaluations, monitor_fail)},
+                                   "searched": "%d (directory, options) runs; monitor failures %d" % (evaluations, monitor_fail)},
                     no_failing_input=(monitor_fail == 0))
     ctx.coverage.update({
         "evaluations": evaluations, "distinct_nontrivial": len(distinct),
         "rule": "random data directories: 1-6 tasks (main, threads, forked children incl. grand-children) in random info.tids "
                 "order, each a random ENTRY/EXIT walk (depth <= 1..8, quick; 40 thorough) possibly stopped with open calls; 45%% of the "
                 "directories draw all timestamps from a coarse grid (ties within and across tasks); children start as the return "
-                "of a fork()/vfork()/daemon() the parent is seen to call, or at an arbitrary depth; 10%% carry wrong depth fields, "
-                "8%% EXITs with nothing open (model fidelity only, monitors skip them). Each directory is replayed in 5 modes: "
-                "default, --no-merge -f F, -f F, --tid <1-2 tasks> -f F [--no-merge], --column-view [--column-offset=N] with "
-                "F = %s. distinct = distinct record sets with >= 2 records" % FIELDS,
+                "of a fork()/vfork()/daemon()/posix.fork() the parent is seen to call (20%% of them scheduled late, so that the parent may "
+                "have forked again), or at an arbitrary depth; 10%% carry wrong depth fields, 8%% EXITs with nothing open (model "
+                "fidelity only, monitors skip them). The symbol table holds plain names, look-alikes of the fix-up names and a random "
+                "subset (34%%: all) of the 18 names of fixup_syms[]; 60%% of the directories have one task (13%%: two) that calls "
+                "setjmp-family functions and longjmp-family functions back to a live jump point (the last armed one, or with p=0.3 in "
+                "a quarter of them an older one = shape of C11-LONGJMP-DEPTH), 35%% have exec*() calls that reset the stack (in two "
+                "thirds of those directories an exec may fail and return = shape of C06-EXEC-FAILED). Each directory is replayed in 5 modes: default, --no-merge -f F, -f F, "
+                "--tid <1-3 tasks> -f F [--no-merge], --column-view [--column-offset=N] with F = %s, plus 3-4 re-spellings of these "
+                "options (repeated / `;` / `=` / blank / permuted / duplicated --tid lists, -fX, --output-fields[=]X, +lists, overridden "
+                "-f, option order) whose output must be byte-identical. distinct = distinct record sets with >= 2 records" % FIELDS,
         "input_distribution": dist, "model_code_disagreements": disagreements, "monitor_failures_on_impl": monitor_fail,
+        "model_variant": {"matched": best, "meaning": "<forkLatest><orphan><execFail> repair flags of Uft.Replay.Fixes", "directories_differing": var_dis},
+        "fixup_syms_in_source": src_tab, "findings_by_shape": {k: len(v) for k, v in tagged.items()},
         "directories": ncase, "exhaustive": False, "samples": samples,
     })
     ctx.assumptions += [
         "user ENTRY/EXIT records only (no kernel, perf, event, LOST records), no filter/trigger/time-range options",
         "per-task timestamps non-decreasing; nesting depth below max_stack (1024)",
         "durations/deltas are compared as the text print_time_unit() produces (exact ns below 1 ms, 3 digits of the unit above)",
+        "a longjmp is followed by the second return of the setjmp it targets, at that setjmp's depth; an exec*() that succeeds is "
+        "followed by a depth-0 ENTRY (one session: the new image has the same symbol table)",
     ]
     ctx.notes += [
         "--tid <forked child> without its parent task: the child's inherited display depth is lost (the parent is not replayed), "
         "so its first lines are indented differently from the full output; order, names, durations and times are unchanged. "
-        "Modelled as is (theorem c06_tid_is_projection has the closure hypothesis; c06_tid_orphan_child_witness shows the difference); "
-        "the --tid monitor compares indentation only for parent-closed selections.",
+        "Modelled as is (theorem c06_tid_is_projection has the closure hypothesis; c06_tid_orphan_child_witness shows the difference; "
+        "model flag Fixes.orphan = proposed_fixes/C06-TID-ORPHAN.diff); the --tid monitor compares indentation only for "
+        "parent-closed selections.",
+        "the second return of a setjmp() is printed with the time since the abandoned callee at that level was entered "
+        "(its stack slot was reused): modelled as coded, the duration monitor skips these lines.",
     ]
     return C.finish(ctx)
 
@@ -733,9 +1243,13 @@ def replay(ctx, path):
     raw, mres, mlines = evaluate(ctx, [case], uft, root)
     res, mism, bad = assess(case, raw[0], mres)
     for mode in case["modes"]:
-        print("== uftrace replay %s  (rc=%s)" % (" ".join(mode_args(case, mode)), raw[0][mode][0]))
-        print(raw[0][mode][1])
-        print("   model: " + mres[(case["idx"], mode)])
+        print("== uftrace replay %s  (rc=%s)" % (" ".join(mode_args(case, mode)), raw[0][0][mode][0]))
+        print(raw[0][0][mode][1])
+        for fx in sorted({rep_variant(case, v) for v in VARIANTS}):
+            print("   model %s: %s" % (fx, mres[(case["idx"], mode, fx)]))
+    for mode, args, (rc, out, err) in raw[0][1]:
+        print("== form of %s: uftrace replay %s  (rc=%s) %s" % (mode, " ".join(args), rc, "same output" if (rc, out, err) == tuple(raw[0][0][mode]) else "DIFFERENT:\n" + out + err))
+    best = min(VARIANTS, key=lambda fx: (len(mism[fx]), VARIANTS.index(fx)))
     print("monitor failures:", json.dumps([list(b) for b in bad], indent=1))
-    print("model/implementation differences:", json.dumps(mism, indent=1))
-    return 1 if (bad or mism) else 0
+    print("model/implementation differences (variant %s):" % best, json.dumps(mism[best], indent=1))
+    return 1 if ([b for b in bad if b[2] is None] or mism[best]) else 0
